@@ -76,7 +76,7 @@ def run(chk):
         sel, handle = flow.presence_selection(u, is_handle)
         same_u = handle is not None and set(sel) == {True, False} and sel[False] == _normal.NONE and base(handle[1]) == base(_N.inline(cred))
         chk.ob("R2 key", "R2|get_assertion|returned-handle-of-signing-credential", bool(same_u), where(ga, rb), "Response.user = %s" % flow.term_str(u)[:200])
-    pkf = [b for b in p.all_bodies if b.path == "passkey_authenticator::private_key_from_cose_key"]
+    pkf = [b for b in p.all_bodies if b.crate == "passkey_authenticator" and b.path == b.root and b.path.rsplit("::", 1)[-1] == "private_key_from_cose_key"]
     if chk.require("R2 key", "R2|private_key_from_cose_key", len(pkf) == 1, "passkey_authenticator", "private_key_from_cose_key not found"):
         b = pkf[0]
         chk.touched(b)
